@@ -12,10 +12,13 @@
        mean of the list and reports mean + alpha*sqrt(2 ln n / n) with n the size of the leaf, without touching the generator.
        ThompsonSampling (documented behaviour, no binarizer in the leaf): exactly one Beta request with parameters 1 + sum and
        1 + size - sum of the leaf's rewards, whose single value is reported.
-    ..._partial: EpsilonGreedy leaves; findings D6 / D7 concern the leaf policies' binarizer and generator;
+       EpsilonGreedy: the leaf policy holds the mean of the leaf's rewards (0 for an empty leaf); the reported value is that mean unless
+       the exploration draw (one uniform number from the generator the leaf policies use) falls below epsilon, in which case it is one
+       more uniform draw - so with epsilon = 0 exactly the mean of the leaf.
+    Findings D6 / D7 concern the leaf policies' binarizer and generator;
     finding D19: Clusters.remove_arm does not purge the stored history (a re-added arm reports 0 until the next training call). *)
 From Coq Require Import List ZArith Bool Arith QArith Qcanon Permutation.
-From MW Require Import Num Assoc AssocFacts Rng Par CF CFInv CFClean CFForget CFSpec Matrix Lin Warm WarmInv Nbr NbrFacts NbrIndep LshFacts Clu Tree CellFacts Mab FacadeCF FacadeArms MoreFacts NumLaws CFAlg Sim Extra QcInst OrderFacts ExpIrrel LinInv FacadeLin LpInv NbrInv CluTreeInv FacadeAll ToyFacts C09All C10All LinForget LinSim MatrixFacts GaussJordan LinSpec NbrIndepGen CluIndep C17Lin WarmIdem C14More LshScale TreeLeaf Rename.
+From MW Require Import Num Assoc AssocFacts Rng Par CF CFInv CFClean CFForget CFSpec Matrix Lin Warm WarmInv Nbr NbrFacts NbrIndep LshFacts Clu Tree CellFacts Mab FacadeCF FacadeArms MoreFacts NumLaws CFAlg Sim Extra QcInst OrderFacts ExpIrrel LinInv FacadeLin LpInv NbrInv CluTreeInv FacadeAll ToyFacts C09All C10All LinForget LinSim MatrixFacts GaussJordan LinSpec NbrIndepGen CluIndep C17Lin WarmIdem C14More LshScale TreeLeaf Rename PopSpec CopyFacts StatFacts CluBatch LinWarm.
 Import ListNotations.
 
 Theorem C12_cluster_policy_trained_on_rows_with_its_label :
@@ -115,5 +118,27 @@ Theorem C12_tree_thompson_reports_one_beta_draw_with_the_leaf_parameters :
     (nth 0 v (zero N), g1)).
 Proof. exact @leaf_expectation_thompson. Qed.
 Print Assumptions C12_tree_thompson_reports_one_beta_draw_with_the_leaf_parameters.
+
+Theorem C12_tree_greedy_leaf_policy_holds_the_mean_of_the_leaf :
+  forall (R A : Type) (N : Num R) (aeqb : A -> A -> bool),
+  (forall x y : A, aeqb x y = true <-> x = y) ->
+  forall (hp : R) (bz : option (A -> R -> R)) (a : A) (rewards : list R),
+  let l1 := cf_fit N aeqb (cf_init N KGreedy hp bz [a]) (repeat a (length rewards)) rewards in
+  c_hp l1 = hp /\ c_arms l1 = [a] /\ greedy_arm_ok N aeqb l1 [rewards] a.
+Proof. exact @leaf_policy_greedy. Qed.
+Print Assumptions C12_tree_greedy_leaf_policy_holds_the_mean_of_the_leaf.
+
+Theorem C12_tree_greedy_reports_the_leaf_mean_or_an_exploration_draw :
+  forall (R A G : Type) (N : Num R) (aeqb : A -> A -> bool) (RG : RngOps R G),
+  (forall x y : A, aeqb x y = true <-> x = y) ->
+  forall (s : (@tree R A)) (g : G) (a : A) (rewards : list R),
+  c_kind (t_lp s) = KGreedy ->
+  leaf_expectation N aeqb RG s g a rewards =
+  (let (u, g1) := draw_r RG g (RqRand []) in
+   if ltb N (hd0 N u) (c_hp (t_lp s))
+   then let (v, g2) := draw_r RG g1 (RqRand []) in (hd0 N v, g2)
+   else (spec_mean N [rewards], g1)).
+Proof. exact @leaf_expectation_greedy. Qed.
+Print Assumptions C12_tree_greedy_reports_the_leaf_mean_or_an_exploration_draw.
 
 
